@@ -8,3 +8,6 @@ import "github.com/digitalocean/firebolt/message"
 
 // VerifDeliverMessage exposes deliverMessage.
 func (e *Executor) VerifDeliverMessage(msg message.Message) []error { return e.deliverMessage(msg) }
+
+// VerifPrepareSource exposes prepareSource (what superviseSource does before it restarts a failed source).
+func (e *Executor) VerifPrepareSource() { e.prepareSource() }
